@@ -58,7 +58,10 @@ def handle (req : Json) : Except String Json := do
   | "merge" => do
     let c ← parseAttrs (← getObj req "canon")
     let es ← (← getArr req "aliases").toList.mapM parseEntry
+    let optExt : Option ExtRat → Json := fun o => match o with | none => Json.null | some v => showExt v
     pure (Json.mkObj [("ok", true), ("merged", showAttrs (merge c es)),
+      ("starts", Json.arr ((startChoices c es).map optExt).toArray),
+      ("ptypes", Json.arr ((ptypeChoices c es).map fun t => Json.str (showPType t)).toArray),
       ("skipped", Json.arr (es.map fun e => Json.bool e.skipped).toArray)])
   | o => throw s!"unknown-op {o}"
 
